@@ -283,6 +283,34 @@ def _gen_worker(args):
     return idx, db, rows, notes, same
 
 
+WITNESS_DBS = [(s19, s38, k) for s19, s38 in (("+", "-"), ("-", "+"), ("+", "+"), ("-", "-")) for k in (0, 1)]
+
+
+def _wit_worker(args):
+    """Hand-built witness databases (toy layout, harness/gen_reads.toy_yaml): variants written exactly at the LAST base of
+    the region a left fusion loses / the FIRST base of the region it keeps (RefSeq e2 = 201..280, i2 = 281..340, fusion
+    `i2-`), as an insertion, a substitution and a 2-base deletion that spans the border, silent and function-altering."""
+    k, (s19, s38, flavour) = args
+    aldyenv.setup()
+    from .. import gen_reads
+
+    pos = 280 if flavour == 0 else 281
+    txt, _ = gen_reads.toy_yaml(s19, s38, seed=11 + k, patches=[(278, "GACGT")],
+                                extra_alleles={"1.004": [(pos, "insG", "rs2801", None)],
+                                               "9.001": [(pos, "insTT", "rs2802", "frameshift")],
+                                               "1.005": [(pos, f"{'C' if pos == 280 else 'G'}>A", "rs2803", None)],
+                                               "10.001": [(280, "delCG", "rs2804", "frameshift")]})
+    path = os.path.join(tlc.scratch(), f"c09_wit_{k}.yml")
+    with open(path, "w") as f:
+        f.write(txt)
+    db = gen_db.from_yaml(path)
+    try:
+        rows, notes, same = rows_for_db(db, f"wit/{k}")
+    except Exception as ex:
+        return 100000 + k, db, None, [f"{type(ex).__name__}: {ex}"], False
+    return 100000 + k, db, rows, notes, same
+
+
 def _mc_worker(args):
     chunk, seed = args
     aldyenv.setup()
@@ -431,6 +459,7 @@ def run(ctx):
         shipped_async = pool.map_async(_shipped_worker, paths, chunksize=1)
         ngen = 300 if quick else 5000
         gen_async = pool.map_async(_gen_worker, [(i, ctx.seed) for i in range(ngen)], chunksize=10)
+        wit_async = pool.map_async(_wit_worker, list(enumerate(WITNESS_DBS)), chunksize=1)
         # ---- (A)
         out = os.path.join(tlc.scratch(), "cat_cases.ndjson")
         r = ctx.mc("gen/CatalogueGen", "gen/CatalogueGen.cfg", workers=1, env={"OUT_FILE": out}, label="CatalogueGen")
@@ -451,7 +480,7 @@ def run(ctx):
                 meta[rw["id"]] = dict(source="shipped", same=same, case={"path": f"aldy/resources/genes/{name}"}, notes=notes)
             ship_rows += rws
         ctx.parts["shipped"] = {"databases": len(paths), "rows": len(ship_rows), "exhaustive": True}
-        for i, db, rws, notes, same in gen_async.get(timeout=3000):
+        for i, db, rws, notes, same in gen_async.get(timeout=3000) + wit_async.get(timeout=3000):
             if rws is None:
                 ctx.violation("LoaderRaised", {"source": "generated", "clause": "LoaderRaised", "error": notes[0].split(":")[0]},
                               {"db": db}, notes[0])
